@@ -161,21 +161,32 @@ func hasMinMaxValidation(a *AttributeExpr) bool {
 // byLength generates a random size array of examples based on what's given.
 func byLength(a *AttributeExpr, r *ExampleGenerator) any {
 	count := NewLength(a, r)
-	switch a.Type.Kind() {
+	// The attribute may be of a user type that aliases a string, bytes, array
+	// or map type (e.g. a length validation given in a HTTP parameter or gRPC
+	// metadata mapping of an attribute whose type is an alias).
+	t := a.Type
+	for {
+		ut, ok := t.(UserType)
+		if !ok {
+			break
+		}
+		t = ut.Attribute().Type
+	}
+	switch t.Kind() {
 	case StringKind:
 		return r.Characters(count)
 	case BytesKind:
 		return []byte(r.Characters(count))
 	case MapKind:
 		raw := make(map[any]any)
-		m := a.Type.(*Map)
+		m := t.(*Map)
 		for i := 0; i < count; i++ {
 			raw[m.KeyType.Example(r)] = m.ElemType.Example(r)
 		}
 		return m.MakeMap(raw)
 	case ArrayKind:
 		raw := make([]any, count)
-		ar := a.Type.(*Array)
+		ar := t.(*Array)
 		for i := 0; i < count; i++ {
 			raw[i] = ar.ElemType.Example(r)
 		}
